@@ -7,6 +7,7 @@ package proxy
 // outcomes the specification permits.  A denied request must leave the upstream untouched.
 
 import (
+	"log"
 	"bytes"
 	"encoding/json"
 	"fmt"
@@ -56,7 +57,7 @@ func (e *c12HTTPEnv) client(src string) *http.Client {
 }
 
 // do sends one request of the case and returns (status, upstream hits for this request).
-func (e *c12HTTPEnv) do(cc *verifx.C12Conc, c *verifx.C12Case, fam, style string, strip bool, k int) (int, int64, error) {
+func (e *c12HTTPEnv) do(cc *verifx.C12Conc, c *verifx.C12Case, fam, style string, strip, noFill bool, k int) (int, int64, error) {
 	id := fmt.Sprintf("q%d", atomic.AddInt64(&e.seq, 1))
 	cnt := new(int64)
 	e.hits.Store(id, cnt)
@@ -66,7 +67,11 @@ func (e *c12HTTPEnv) do(cc *verifx.C12Conc, c *verifx.C12Case, fam, style string
 	if err != nil {
 		return 0, 0, err
 	}
-	cc.SetXFF(req.Header, c.Xff, style, strip)
+	chain := c.Chain()
+	if noFill {
+		chain = c.Xff
+	}
+	cc.SetXFF(req.Header, chain, style, strip)
 	verifx.C12SetCreds(req, c.Creds, k)
 	resp, err := e.client(cc.Addr[c.Peer]).Do(req)
 	if err != nil {
@@ -90,6 +95,8 @@ func c12Family(cc *verifx.C12Conc, peer string) string {
 }
 
 func TestVerifC12HTTP(t *testing.T) {
+	log.SetOutput(io.Discard) // fabio logs every rule comparison; the verdicts do not depend on it
+
 	loop, ll := verifx.C12Loop, verifx.C12LinkLocal()
 	for _, cc := range []*verifx.C12Conc{loop, ll} {
 		if cc == nil {
@@ -214,22 +221,21 @@ func TestVerifC12HTTP(t *testing.T) {
 			return
 		}
 		styles := []string{verifx.C12XffStyles[int(n%2)]}
-		if len(c.Xff) >= 2 {
+		if n := len(c.Chain()); n >= 2 {
 			styles = append(styles, "lines")
+			if n > 7 {
+				styles = append(styles, "mixed")
+			}
 		}
 		if c.XffStyle != "" {
 			styles = []string{c.XffStyle}
 		}
 		for _, style := range styles {
-			status, hits, err := env.do(cc, c, fam, style, false, int(n%4))
+			status, hits, err := env.do(cc, c, fam, style, false, false, int(n%4))
 			atomic.AddInt64(&reqs, 1)
 			cc2 := *c
 			cc2.Conc, cc2.XffStyle, cc2.N = cc.Name, style, n
-			var xs []string
-			for _, x := range c.Xff {
-				xs = append(xs, cc.Addr[x])
-			}
-			desc := fmt.Sprintf("opts %q, client %s, X-Forwarded-For %v (%s), credentials %s", cc.Opts(c.Allow, c.Deny, c.Scheme), cc.Addr[c.Peer], xs, style, c.Creds)
+			desc := fmt.Sprintf("opts %q, client %s, X-Forwarded-For %s (%s), credentials %s", cc.Opts(c.Allow, c.Deny, c.Scheme), cc.Addr[c.Peer], c.ChainText(cc), style, c.Creds)
 			if err != nil {
 				atomic.AddInt64(&plumbing, 1)
 				verifx.Emit(map[string]any{"kind": "oracle", "msg": desc + ": request failed: " + err.Error()})
@@ -248,11 +254,11 @@ func TestVerifC12HTTP(t *testing.T) {
 				verifx.Fail(cc2, c.Features("http", "unexpected-status", rulesCause), "%s: status %d (upstream hits %d)", desc, status, hits)
 				continue
 			case out == "forward" && !c.May:
-				cause := c.Cause(style, func(st string, strip bool) (bool, bool) {
+				cause := c.Cause(style, func(st string, strip, noFill bool) (bool, bool) {
 					if strip && strings.Contains(cc.Addr[c.Peer], "%") {
 						return false, false
 					}
-					s, _, err := env.do(cc, c, fam, st, strip, int(n%4))
+					s, _, err := env.do(cc, c, fam, st, strip, noFill, int(n%4))
 					atomic.AddInt64(&reqs, 1)
 					return s == 403, err == nil
 				})
@@ -285,13 +291,13 @@ func TestVerifC12HTTP(t *testing.T) {
 		if fam == "ll" {
 			atomic.AddInt64(&zonedPeers, 1)
 		}
-		if len(c.Allow)+len(c.Deny) > 0 && (len(c.Xff) > 0 || c.Scheme != "") {
+		if len(c.Allow)+len(c.Deny) > 0 && (len(c.Chain()) > 0 || c.Scheme != "") {
 			atomic.AddInt64(&nontrivial, 1)
 		}
 		if n%1201 == 5 {
 			sampleMu.Lock()
 			if len(samples) < 3 {
-				samples = append(samples, fmt.Sprintf("HTTP opts %q from %s xff %v creds %s -> %v", cc.Opts(c.Allow, c.Deny, c.Scheme), cc.Addr[c.Peer], c.Xff, c.Creds, c.Outcomes))
+				samples = append(samples, fmt.Sprintf("HTTP opts %q from %s xff %s creds %s -> %v", cc.Opts(c.Allow, c.Deny, c.Scheme), cc.Addr[c.Peer], c.ChainText(cc), c.Creds, c.Outcomes))
 			}
 			sampleMu.Unlock()
 		}
